@@ -44,7 +44,7 @@ Judge(e) ==
          [] e.op = "Twins" -> JTwinsWith(e, JAcc2One)
          [] e.op = "Tables" -> JTables(e)
          [] e.op = "IdentityPair" -> JIdentityPair(e)
-         [] e.op \in {"TextEnc", "TextDec", "TextEncChunks", "TextDecMutate", "TextGuard"} -> JText(e)
+         [] e.op \in {"TextEnc", "TextDec", "TextEncChunks", "TextDecMutate", "TextGuard", "TextBig"} -> JText(e)
          [] e.op = "RAddrAccess" -> JRAddrAccess(e)
          [] e.op \in {"ByteSweep", "RandomSweep", "CodeSweep", "SignedMutSweep"} -> JSweepOutcome(e)
          [] e.op = "MappingBodies" -> JMappingBodies(e)
